@@ -43,7 +43,9 @@ def _app_script(rng, tag):
 
 def _case_h1(rng, tier, n, exhaustive_split=None):
     version = rng.choice(["1.1", "1.1", "1.1", "1.0"])
-    nreq = 1 if version == "1.0" else rng.choice([1, 1, 2, 3])
+    nreq = 1 if version == "1.0" else rng.choice([1, 1, 2, 3, 4])
+    # all requests of the connection written back to back, so that read boundaries fall anywhere across them (incl. all in one read)
+    pipelined = nreq > 1 and exhaustive_split is None and rng.random() < 0.35
     conn = {"tls": rng.random() < 0.2, "alpn": "http/1.1",
             "family": rng.choice(["inet", "inet", "inet6"])}
     if conn["family"] == "inet6":
@@ -76,15 +78,24 @@ def _case_h1(rng, tier, n, exhaustive_split=None):
             splits = [k, len(data) - k]
         else:
             splits = G.gen_splits(rng, len(data))
+        if pipelined:
+            client.append(data)
+            continue
         client.append(["feed_split", data, splits])
         if pace == "late":
             client.append(["trigger", "go%d" % tag])
         client.append(["settle"])
         if not complete:
             client.append(["eof"])
+    if pipelined:
+        blob = b"".join(client)
+        client = [["feed_split", blob, G.gen_splits(rng, len(blob), rng.choice(["one", "one", "two", "k"]))], ["settle"]]
+        for r_, pace in zip(reqs, paces):
+            if pace == "late":
+                client += [["trigger", "go%d" % r_["tag"]], ["settle"]]
     client.append(["eof"])
     return {
-        "family": "h1." + version + (".trunc" if truncate else ""), "backends": ["asyncio", "trio"],
+        "family": "h1." + version + (".trunc" if truncate else "") + (".pipelined" if pipelined else ""), "backends": ["asyncio", "trio"],
         "config": config, "conn": conn, "apps": {"default": [["recv_until_end"], ["respond", 200, [], b"d"]], "by_tag": by_tag},
         "client": client, "truth": {"requests": reqs, "paces": paces}, "sched": {"seed": rng.randrange(1 << 30)},
     }
